@@ -1042,6 +1042,297 @@ def case_messages(ctx, flavour, seed):
 
 
 
+# ----------------------------------------------------------------------------
+# D2BP message gauges: gauge_insert (raw / inverse factors, smudge, power), gauge_temp, TensorNetwork.gauge_insert(bp),
+# gate_ in the BP gauge.  Everything numerical here is a TEST against independent numpy references (not a theorem);
+# the index / conjugation rule of the two factors is additionally tied to coq/C14/GaugeModel.v (corr_gauge below).
+
+
+def gen_state(rng, n, ncomp=1):
+    """random tree / forest STATE: site i carries the bonds to its tree neighbours (sizes 1-3), one physical index
+    k<i> (size 2-3) and sometimes a second output index x<i>; index order on every tensor is shuffled"""
+    tens = [[] for _ in range(n)]
+    dim = {}
+    split = int(rng.integers(1, n)) if (ncomp > 1 and n > 1) else None
+    for i in range(1, n):
+        if i == split:
+            continue
+        lo = split if (split is not None and i > split) else 0
+        p = int(rng.integers(lo, i))
+        b = f"b{i}"
+        dim[b] = int(rng.choice([1, 2, 2, 3]))
+        tens[p].append(b)
+        tens[i].append(b)
+    for i in range(n):
+        dim[f"k{i}"] = int(rng.choice([2, 2, 3]))
+        tens[i].append(f"k{i}")
+        if rng.random() < 0.15:
+            dim[f"x{i}"] = 2
+            tens[i].append(f"x{i}")
+    for t in tens:
+        rng.shuffle(t)
+    return tens, dim
+
+
+def build_state(tens, datas, e0=0.0):
+    import quimb.tensor as qtn
+
+    tn = build_tn(tens, datas)
+    tn.view_as_(qtn.TensorNetworkGenVector, sites=list(range(len(tens))), site_tag_id="I{}", site_ind_id="k{}")
+    tn.exponent = e0
+    return tn
+
+
+def dense_of(tn, outs):
+    t = tn.contract(all, output_inds=tuple(outs))
+    return np.asarray(t.data if hasattr(t, "data") else t)
+
+
+def rdm_of(arr, nkeep):
+    """normalised Gram matrix of an array over its first nkeep axes (the rest is traced)"""
+    a = np.asarray(arr)
+    d = int(np.prod(a.shape[:nkeep], dtype=int))
+    m = a.reshape(d, -1)
+    rho = m @ m.conj().T
+    return rho / np.trace(rho)
+
+
+def sqrt_spectrum(m, smudge, power):
+    """independent reference for the spectrum of the inserted factor: (sqrt(max(eig, 0)) + smudge * largest) ** power"""
+    ev = np.linalg.eigvalsh(np.asarray(m))
+    s = np.sqrt(np.clip(ev, 0.0, None))
+    return np.sort((s + smudge * s.max()) ** power)
+
+
+def gint_mat(a):
+    """complex / real float matrix -> (rows of exact Gaussian integers, common power-of-two denominator)"""
+    a = np.asarray(a)
+    fr = [[(Fraction(float(np.real(x))), Fraction(float(np.imag(x)))) for x in row] for row in a]
+    den = 1
+    for row in fr:
+        for re, im in row:
+            for f in (re, im):
+                den = den * f.denominator // math.gcd(den, f.denominator)
+    return [[(int(re * den), int(im * den)) for re, im in row] for row in fr], den
+
+
+def gmat_lit(rows):
+    return "[" + "; ".join("[" + "; ".join(f"({zlit(re)}, {zlit(im)})" for re, im in r) + "]" for r in rows) + "]"
+
+
+def case_gauge(ctx, seed, coq_out=None):
+    """one random tree state, converged D2BP, then the whole temporary-gauge family on a random patch; reports violations.
+    If coq_out is a list, the observed (message eigen-decomposition, raw factor, inverse factor) triples are appended
+    to it for the correspondence with the Coq model of the factor rule."""
+    import quimb.tensor.belief_propagation as bpm
+
+    rng = np.random.default_rng(seed)
+    n = int(rng.integers(2, 8))
+    kind = str(rng.choice(["complex", "complex", "signed", "posint"]))
+    tens, dim = gen_state(rng, n, ncomp=int(rng.integers(1, 3)))
+    datas = [gen_data(rng, [dim[i] for i in ix], kind) for ix in tens]
+    o = opts_of(rng, "d2bp")
+    e0 = float(rng.choice([0.0, 0.0, 1.0, -1.0]))
+    smudge = float(rng.choice([0.0, 0.0, 1e-12, 1e-3]))
+    power = float(rng.choice([1.0, 1.0, 2.0, 0.5]))
+    entry = str(rng.choice(["D2BP.gauge_insert", "TensorNetwork.gauge_insert"]))
+    outs = tuple(sorted(ix for ix in dim if sum(ix in t for t in tens) == 1))
+    psi = np.asarray(einsum_ref(tens, dim, datas, out=outs)) * 10**e0
+    amax = float(np.abs(psi).max())
+    cplx = ":complex" if kind == "complex" else ""
+    desc = {"stream": "oracle_gauge", "case_seed": seed, "kind": kind, "tens": tens, "dim": dim, "opts": o, "tn_exponent": e0,
+            "smudge": smudge, "power": power, "entry": entry}
+    ctx.count(("gauge", str(tens), str(sorted(dim.items())), kind, str(sorted(o.items())), smudge, power, entry),
+              nontrivial(tens, dim))
+    ctx.bump("oracle_gauge")
+    ctx.bump("gauge_data_" + kind)
+
+    # the patch: a random non-empty proper subset of the sites
+    k = int(rng.integers(1, n))
+    members = sorted(int(x) for x in rng.choice(n, size=k, replace=False))
+    desc["patch"] = members
+    cut = [(ix, i) for i in members for ix in tens[i]
+           if ix not in outs and not all(j in members for j in range(n) if ix in tens[j])]
+    pouts = [ix for ix in outs if any(ix in tens[i] for i in members)]
+    perm = [outs.index(ix) for ix in pouts] + [a for a, ix in enumerate(outs) if ix not in pouts]
+    rho_exact = rdm_of(np.transpose(psi, perm), len(pouts))
+
+    def insert(bp_, tn_, **kw):
+        if entry == "D2BP.gauge_insert":
+            return bp_.gauge_insert(tn_, **kw)
+        return tn_.gauge_insert(bp_, **kw)
+
+    try:
+        with warnings.catch_warnings(), np.errstate(all="ignore"):
+            warnings.simplefilter("ignore")
+            bp = bpm.D2BP(build_state(tens, datas, e0), **o)
+            bp.run(max_iterations=iters(o), tol=0.0)
+            tid = tids_of(bp.tn)
+            ptids = [tid[i] for i in members]
+            msgs = {(ix, i): np.asarray(bp.messages[ix, tid[i]]) for ix, i in cut}
+            # the documented conditioning of the inserted spectrum; well conditioned <=> the inverse factors are
+            # numerically meaningful on the patch itself (rank-deficient messages: only the whole network is compared)
+            spec = {key: sqrt_spectrum(m, smudge, power) for key, m in msgs.items()}
+            wellc = all(sp.min() > 1e-5 * sp.max() for sp in spec.values())
+            spec_t = {key: sqrt_spectrum(m, 1e-12, 1.0) for key, m in msgs.items()}
+            wellc_t = all(sp.min() > 1e-5 * sp.max() for sp in spec_t.values())
+            ctx.bump("gauge_well_conditioned" if wellc else "gauge_rank_deficient_message")
+
+            # (1) forward factors
+            full = bp.tn.copy()
+            patch = full._select_tids(ptids, virtual=True)
+            raw = insert(bp, patch, smudge=smudge, power=power, return_gauges="raw")
+            got = sorted((ix, [i for i in members if ix in tens[i]][0]) for _, ix, _ in raw)
+            if got != sorted(cut):
+                ctx.violation("d2bp:gauge_insert:boundary_set", f"{entry} gauged the indices {got}, the bonds leaving the patch "
+                              f"are {sorted(cut)}", desc)
+                return
+            rawf = {}
+            for t, ix, g in raw:
+                (i,) = [i for i in members if ix in tens[i]]
+                g = np.asarray(g)
+                rawf[ix, i] = g
+                # compared before the power is applied (a power < 1 blows the rounding noise of a zero eigenvalue up)
+                sv = np.sort(np.linalg.svd(g, compute_uv=False)) ** (1.0 / power)
+                sp1 = sqrt_spectrum(msgs[ix, i], smudge, 1.0)
+                if g.shape != msgs[ix, i].shape or not np.allclose(sv, sp1, rtol=1e-8, atol=1e-7 * sp1.max()):
+                    ctx.violation("d2bp:gauge_insert:raw:spectrum" + (":smudge" if smudge else "") + (":power" if power != 1.0 else ""),
+                                  f"singular values**(1/power) {sv} of the inserted factor on {ix} are not sqrt(eig) + smudge*max = "
+                                  f"{sp1}", {**desc, "ind": ix})
+                    return
+            if smudge <= 1e-12 and power == 1.0:
+                # the environment of the gauged patch is the identity: its own Gram matrix is the exact reduced density matrix
+                cix = [ix for ix, _ in cut]
+                rho = rdm_of(dense_of(patch, pouts + cix), len(pouts))
+                if not np.allclose(rho, rho_exact, rtol=0, atol=1e-8):
+                    ctx.violation("d2bp:gauge_insert:raw:environment_not_identity" + cplx,
+                                  f"{entry}: patch gauged with the sqrt of converged messages: its Gram matrix over the patch's "
+                                  f"output indices differs from the exact reduced density matrix by "
+                                  f"{float(np.abs(rho - rho_exact).max()):.2e}", desc)
+            gauged = dense_of(patch, pouts + [ix for ix, _ in cut])
+
+            # (2) inverse factors: same call with return_gauges='inverse', then apply them
+            full2 = bp.tn.copy()
+            patch2 = full2._select_tids(ptids, virtual=True)
+            ref_patch = dense_of(patch2, pouts + [ix for ix, _ in cut])
+            inv = insert(bp, patch2, smudge=smudge, power=power, return_gauges="inverse")
+            invf = {}
+            for t, ix, gi in inv:
+                (i,) = [i for i in members if ix in tens[i]]
+                invf[ix, i] = np.asarray(gi)
+            if sorted(invf) != sorted(cut):
+                ctx.violation("d2bp:gauge_insert:boundary_set", f"{entry}(return_gauges='inverse') returned factors for "
+                              f"{sorted(invf)}, the bonds leaving the patch are {sorted(cut)}", desc)
+                return
+            if wellc:
+                for key in sorted(invf):
+                    prod = invf[key] @ rawf[key]
+                    if not np.allclose(prod, np.eye(len(prod)), rtol=0, atol=1e-8):
+                        ctx.violation("d2bp:gauge_insert:inverse:not_inverse_of_raw" + cplx,
+                                      f"{entry}: factor returned with return_gauges='inverse' times the factor returned with 'raw' "
+                                      f"for the same message on {key[0]} is not the identity (max deviation "
+                                      f"{float(np.abs(prod - np.eye(len(prod))).max()):.2e})", {**desc, "ind": key[0]})
+                        break
+            for t, ix, gi in inv:
+                t.gate_(gi, ix)
+            if wellc:
+                back = dense_of(patch2, pouts + [ix for ix, _ in cut])
+                if not np.allclose(back, ref_patch, rtol=1e-8, atol=1e-8 * np.abs(ref_patch).max()):
+                    ctx.violation("d2bp:gauge_insert:inverse:round_trip" + cplx,
+                                  f"{entry}: inserting the sqrt-messages and applying the returned inverses changed the patch by "
+                                  f"{float(np.abs(back - ref_patch).max()):.2e}", desc)
+            if (wellc or smudge >= 1e-12) and not np.allclose(dense_of(full2, outs), psi, rtol=1e-7, atol=1e-7 * amax):
+                ctx.violation("d2bp:gauge_insert:inverse:dense_changed" + cplx,
+                              f"{entry}: gauging a patch and un-gauging it with the returned inverses changed to_dense of the "
+                              f"whole network", desc)
+            if coq_out is not None and power in (1.0, 2.0):
+                for key in sorted(cut)[:3]:
+                    s2, W = np.linalg.eigh(msgs[key])
+                    coq_out.append({"ind": key[0], "W": W, "s": np.sqrt(np.clip(s2, 0.0, None)), "smudge": smudge,
+                                    "power": int(power), "raw": rawf[key], "inv": invf[key] if wellc else None})
+
+            # (3) gauge_temp (default smudge 1e-12), with and without the automatic un-gauging
+            full3 = bp.tn.copy()
+            patch3 = full3._select_tids(ptids, virtual=True)
+            auto = bool(rng.integers(0, 2))
+            desc["ungauge_outer"] = auto
+            with bp.gauge_temp(patch3, ungauge_outer=auto) as outer:
+                inside = dense_of(patch3, pouts + [ix for ix, _ in cut])
+            if not auto:
+                for t, ix, gi in outer:
+                    t.gate_(gi, ix)
+            if sorted(ix for _, ix, _ in outer) != sorted(ix for ix, _ in cut):
+                ctx.violation("d2bp:gauge_temp:boundary_set", "gauge_temp gauged other indices than the bonds leaving the patch", desc)
+            if cut and wellc_t and smudge <= 1e-12 and power == 1.0 and not np.allclose(
+                    inside, gauged, rtol=1e-7, atol=1e-7 * np.abs(gauged).max()):
+                ctx.violation("d2bp:gauge_temp:inside_not_gauged", "inside gauge_temp the patch is not the patch with the sqrt-messages "
+                              "inserted", desc)
+            if wellc_t:
+                back = dense_of(patch3, pouts + [ix for ix, _ in cut])
+                if not np.allclose(back, ref_patch, rtol=1e-8, atol=1e-8 * np.abs(ref_patch).max()):
+                    ctx.violation("d2bp:gauge_temp:round_trip" + cplx,
+                                  f"gauge_temp(ungauge_outer={auto}) with nothing done inside changed the patch by "
+                                  f"{float(np.abs(back - ref_patch).max()):.2e}", desc)
+            if not np.allclose(dense_of(full3, outs), psi, rtol=1e-7, atol=1e-7 * amax):
+                ctx.violation("d2bp:gauge_temp:dense_changed" + cplx, "gauge_temp with nothing done inside changed to_dense", desc)
+
+            # (4) gates in the BP gauge without truncation: the exactly gated state, messages of the gated bond exact,
+            #     and BP re-run from the touched sites gives the exact norm; a second gate after the re-run
+            bonds_ = [(ix, [i for i in range(n) if ix in tens[i]]) for ix in dim if ix not in outs]
+            cur = psi
+            for rep in range(2):
+                if bonds_ and rng.random() < 0.85:
+                    _, where = bonds_[int(rng.integers(0, len(bonds_)))]
+                    if rng.random() < 0.5:
+                        where = where[::-1]
+                else:
+                    where = [int(rng.integers(0, n))]
+                ds = [dim[f"k{i}"] for i in where]
+                D = int(np.prod(ds))
+                G = gen_data(rng, (D, D), "complex" if kind == "complex" else "signed")
+                desc["gates"] = desc.get("gates", []) + [list(where)]
+                # numpy reference: G[(out), (in)] acting on the physical indices of `where`
+                axes = [outs.index(f"k{i}") for i in where]
+                Gt = G.reshape(ds + ds)
+                cur = np.moveaxis(np.tensordot(Gt, cur, axes=(list(range(len(ds), 2 * len(ds))), axes)), list(range(len(ds))), axes)
+                bp.gate_(G, tuple(where), max_bond=None, cutoff=0.0)
+                two = ":two_site" if len(where) == 2 else ":one_site"
+                cmax = float(np.abs(cur).max())
+                if not np.allclose(dense_of(bp.tn, outs), cur, rtol=1e-7, atol=1e-7 * cmax):
+                    ctx.violation("d2bp:gate_:state" + two + cplx, f"bp.gate_(G, {where}) without truncation is not the exactly gated "
+                                  f"state (max deviation {float(np.abs(dense_of(bp.tn, outs) - cur).max()):.2e} of {cmax:.2e})",
+                                  {**desc, "gate_number": rep})
+                    return
+                if len(where) == 2:
+                    # probe the two messages gate_ has written: gauge each gated site on its own with the CURRENT messages
+                    tid = tids_of(bp.tn)
+                    for i in where:
+                        so = [ix for ix in outs if ix in tens[i]]
+                        pm = [outs.index(ix) for ix in so] + [a for a, ix in enumerate(outs) if ix not in so]
+                        rex = rdm_of(np.transpose(cur, pm), len(so))
+                        one = bp.tn._select_tids([tid[i]], virtual=False)
+                        bp.gauge_insert(one, smudge=0.0, return_gauges=None)
+                        rest = [ix for ix in one.outer_inds() if ix not in so]
+                        rg = rdm_of(dense_of(one, so + rest), len(so))
+                        if not np.allclose(rg, rex, rtol=0, atol=1e-7):
+                            ctx.violation("d2bp:gate_:messages_of_gated_bond" + cplx,
+                                          f"after bp.gate_(G, {where}) the messages into site {i} do not give its exact reduced "
+                                          f"density matrix (max deviation {float(np.abs(rg - rex).max()):.2e})",
+                                          {**desc, "gate_number": rep, "site": i})
+                            return
+                bp.run(max_iterations=iters(o), tol=0.0)
+                v = bp.contract()
+                ex = float(np.sum(np.abs(cur) ** 2))
+                if not close(v, ex, ex):
+                    ctx.violation("d2bp:gate_:norm_after_rerun" + two, f"after bp.gate_(G, {where}) and bp.run() the BP norm^2 {v} "
+                                  f"is not the exact norm^2 {ex} of the gated tree state", {**desc, "gate_number": rep})
+                    return
+    except Exception as e:
+        import traceback
+
+        ctx.violation("d2bp:gauge:raised", f"raised {type(e).__name__}: {str(e)[:160]}", {**desc, "tb": traceback.format_exc()[-600:]})
+
+
 def corpus_stream(ctx):
     """minimised past failures (corpus/C14/*.json): explicit networks, run first"""
     import glob
